@@ -526,7 +526,12 @@ class Parser:
     #   generate string from token sequence, with macro expansion
     #
     def get_text_expanded(self, toks):
+        # NB: expansion for inspection only; text flows extracted on the
+        # way (e.g. \footnote) are collected when the tokens are expanded
+        # in the main flow, they must not be collected twice
+        n = len(self.extracted)
         toks = self.expand_sequence(scanner.Buffer(toks.copy()))
+        del self.extracted[n:]
         return self.get_text_direct(toks)
 
     #   remove all blank text lines, which contain at least one ActionToken
